@@ -14,6 +14,7 @@ func init() {
 	register("C01", propInfo{
 		Explanation: "Round-trip byte equality through DEFLATE is a value-level property and is NOT decided. Decided are structural necessary conditions in the anchored mechanisms: the caller's buffers are never a write destination anywhere on the write path; masking happens in the library's own buffer; every delivered byte of a compressed message with context takeover enters the sliding window; the decompressor's dictionary argument and the compressor's per-message reset follow the negotiated takeover flags; the four withheld tail bytes are the ones the reader re-appends; frame position is advanced by exactly the bytes delivered; fragment opcodes and the compression decision are per message.",
 		Decides: []string{
+			"C01.handoff (= C03.handoff): bytes the client sent right behind its handshake are replayed in front of the connection",
 			"C01.buf: no store, copy, append, mask, binary.Put*, or Read targets a slice derived from the p parameter of Write/Writer.Write/writeFrame/writeFramePayload/trimLastFourBytesWriter.Write/NetConn.Write/wsjson's writer",
 			"C01.maskdst: on the write path mask() is applied to Conn.writeBuf[i:Buffered()] with i taken before the Write",
 			"C01.dict: msgReader.Read feeds slidingWindow.write(p[:n]) with n the count just returned, exactly when flate ∧ takeover",
@@ -44,6 +45,7 @@ func init() {
 	register("C18", propInfo{
 		Explanation: "Decided: netConn.read's decision table (close status 1000/1001 ↦ sticky io.EOF, other errors unchanged, wrong type ↦ Close(1003) and an error, end of message by identity io.EOF, empty reads skipped), netConn.Write issuing exactly one message write of p, the unlimited read limit, and the deadline mechanism's table (timer: tryLock false ↦ cancel, true ↦ set expired flag; Read/Write test the flag under their lock; Set*Deadline clears the flag and re-arms).",
 		Decides: []string{
+			"C18.ctl (= C03.ctl): control frames up to 125 bytes are accepted (a close with a 123-byte reason reads as io.EOF)",
 			"C18.eof: CloseStatus(err) ∈ {1000,1001} ↦ io.EOF and readEOFed=true (later reads return io.EOF before touching the connection); other errors returned unchanged",
 			"C18.type: typ ≠ msgType ↦ c.Close(StatusUnsupportedData, …) and a non-nil error; the reader is not installed",
 			"C18.msgend: identity err == io.EOF from the message reader ↦ reader=nil, err=nil; Read loops while n == 0 ∧ err == nil",
@@ -843,7 +845,48 @@ func runC18(p *Program, r *Report) {
 				// (0,nil) never returned: on a nil-error return the count was tested non-zero
 				if nilness(pa.Ret[1], pa) == -1 {
 					if z, known := decidedLike(pa, last.Res.Key()+"#0 == 0"); !known || z {
-						return false, "may return (0, nil)"
+						// … except into an empty buffer, where looping would never end while a message is pending (F32)
+						if ne, k := nonEmpty(pa, "param:p"); !(known && z && k && !ne) {
+							return false, "may return (0, nil) for a non-empty buffer"
+						}
+					}
+				}
+			}
+			return true, ""
+		})
+	}
+	// a read of 0 bytes continues the loop only when the buffer could have taken something
+	if fn := p.Func("netConn.Read"); fn != nil {
+		p.forAllPaths(r, "C18.msgend", fn, "no spinning on an empty buffer", Opts{Unroll: 2}, "netConn.Read calls read again after (0, nil) only when len(p) > 0: with an empty buffer every read of a pending message returns (0, nil) and the loop would never end, holding readMu", func(pa *Path) (bool, string) {
+			rds := pa.Calls("netConn.read")
+			if len(rds) >= 2 {
+				if ne, k := nonEmpty(pa, "param:p"); !k || !ne {
+					return false, "read called again although the buffer is (or may be) empty"
+				}
+			}
+			return true, ""
+		})
+	}
+	// the close handshake precedes the cancellation of the read and write contexts (F31)
+	if fn := p.Func("netConn.Close"); fn != nil {
+		p.forAllPaths(r, "C18.close.order", fn, "handshake before cancel", Opts{}, "netConn.Close calls Conn.Close(StatusNormalClosure, \"\") before it cancels the contexts of a Read or Write in progress: a cancelled context makes the timeout watcher close the transport, and no close frame would be sent", func(pa *Path) (bool, string) {
+			ci := eventIndex(pa, 0, func(e *Event) bool { return isCall(e, "Conn.Close") })
+			if ci < 0 {
+				return false, "Conn.Close is not called"
+			}
+			if c, ok := avInt(pa.Events[ci].Args[1]); !ok || c != 1000 {
+				return false, "closes with " + argKey(pa.Events[ci], 1)
+			}
+			for i, e := range pa.Events {
+				if e.Kind != "call" || i > ci {
+					continue
+				}
+				if strings.Contains(e.Callee, "Cancel") || strings.Contains(e.Callee, "cancel") || strings.HasPrefix(e.Callee, "dynamic") {
+					return false, e.Callee + " before the close handshake"
+				}
+				for _, a := range e.Args {
+					if a != nil && (a.Key() == "netConn.readCancel" || a.Key() == "netConn.writeCancel") {
+						return false, "a context is cancelled before the close handshake"
 					}
 				}
 			}
